@@ -1346,9 +1346,13 @@ fn oracle(w: &World, info: &OpInfo, history: &[String], out: &mut Out) {
             //     `upgrade` always.
             let recorded_new = s1.len() > s0.len();
             // (the callers' saves are where the source has them — flags; add_node's own saves are the code under test)
+            // "The registry saved after each step loads back to the same state": after every operation that SUCCEEDED the
+            // file must be the in-memory registry (whether or not the caller, as played here from the flags, saved).
+            let addressed = info.result != "err:no-such-service" && info.result != "bad-op";
             let claims_saved = w.saved_now
                 || match info.ws.first().copied() {
-                    Some("add") => recorded_new,
+                    Some("add") => !failed || recorded_new,
+                    Some("start") | Some("stop") | Some("remove") | Some("upgrade") | Some("refresh-full") | Some("drestart") => !failed && addressed,
                     Some("reload") => !failed,
                     _ => false,
                 };
@@ -1873,7 +1877,7 @@ fn generate(seed: u64, n: u64) -> Vec<String> {
                 for s in &next {
                     let mut base = prefix.clone();
                     base.extend(s.iter().cloned());
-                    if nsvc == 1 || s.len() < 2 || rng.chance(1, if thorough { 1 } else { 3 }) {
+                    if nsvc == 1 || s.len() < 2 || rng.chance(1, if thorough { 1 } else { 8 }) {
                         expand(&base, &mut rng, 0, &mut lines, 64, if thorough || nsvc == 1 { 2 } else { 1 });
                     } else {
                         lines.push("reset".into());
